@@ -703,7 +703,7 @@ static long long handle_one(const J &cmd, W &w) {
         if (cmd.has("mark")) w.kvs("mark", cmd.gets("mark").c_str());
     } else if (op == "errlist") {
         has_rc = false;
-        w.kv("nerr", cif_nerr); w.key("msgs"); w.arr();
+        w.kv("nerr", cif_nerr); w.kv("slot", (long long) sizeof(cif_errlist[0])); w.key("msgs"); w.arr();
         for (int i = 0; i < cif_nerr; i++) w.cstr(cif_errlist[i]);
         w.end_arr();
     } else if (op == "cif_create") {
